@@ -6,8 +6,12 @@ import MithrilModel.AggProgress
 Joint satisfiability of the hypotheses of every theorem of `Properties/C14.lean`, on ONE concrete history of
 the model from `init 2 1` (environment `Agg.Ex`: quorum = 2 distinct lottery indices) that certifies five
 signed entities over two epochs — and on the same history with a tick cut at a crash point for the `RunWfC`
-theorems. No hypothesis of C14 quantifies over all records / all functions; nothing was refuted. Notes on the
-conclusions are at the end.
+theorems. No hypothesis of C14 quantifies over all records / all functions, none is refutable outright.
+ONE FINDING: the hypotheses of `C14_gap_blocks` (an open message with no certificate of its epoch or of the one
+before) are satisfiable only by hand-made states: `gap_hypothesis_unreachable` proves that no state reachable by a
+`RunWfC` run from `init n g` meets them — the clause is vacuous for the model's own runs (the reachable epoch gap is
+the one of `C14_gap_blocks_idle`). A remark on `C14_quorum` (it speaks about the environment's own, arbitrary,
+test) is at the end.
 -/
 namespace Vacuity.C14
 open Agg
@@ -141,10 +145,10 @@ example :
 /-! ### `C14_gap_blocks` (hypotheses: an open message, no certificate of its epoch or the one before) -/
 
 /-- a hand-made state: `Agg.s1` with the open message moved to epoch 5 (the only certificate is of epoch 1).
-NOTE: no such state is reachable in the model — an open message is created by a READY tick of its epoch, READY is
-entered from IDLE only when the latest certificate is of the epoch or the one before, and certificates are never
-removed — so this clause is about tables the model never produces (defensive); the reachable gap is the one of
-`C14_gap_blocks_idle` below. -/
+No such state is reachable in the model (`gap_hypothesis_unreachable` below): an open message is created by a READY tick
+of its epoch, READY is entered from IDLE only when the latest certificate is of the epoch or the one before, and
+certificates are never removed — so this clause is about tables the model never produces (defensive); the reachable
+gap is the one of `C14_gap_blocks_idle`. -/
 def sGap : St :=
   { s1 with oms := [{ entity := 7, epoch := 5, msg := 0, certified := false, expired := false, expiresAt := none }] }
 
@@ -152,6 +156,270 @@ example : findOm 7 sGap.oms = some { entity := 7, epoch := 5, msg := 0, certifie
     (∀ c ∈ sGap.certs, c.epoch ≠ 5 ∧ c.epoch + 1 ≠ 5) ∧ E1.quorum 7 (sGap.sigs.filter (·.entity = 7)) = true ∧
     newCert E1 sGap 7 = none ∧ (newCert E1 s1 7).isSome = true := by
   decide
+
+/-! ### FINDING: the hypotheses of `C14_gap_blocks` hold in NO reachable state of the model
+
+`GapInv`: every open message, and the epoch of a READY / SIGNING runtime, has a stored certificate of that epoch or of the
+one before. It holds after genesis and is preserved by every event of a `RunWfC` run (together with `SInv`). -/
+
+/-- some stored certificate is of epoch `ep` or of the one before -/
+def Near (certs : List CertRec) (ep : Nat) : Prop := ∃ c ∈ certs, c.epoch = ep ∨ c.epoch + 1 = ep
+
+def rtEpoch : Rt → Option Nat
+  | .ready ep => some ep
+  | .signing ep _ => some ep
+  | _ => none
+
+structure GapInv (s : St) : Prop where
+  oms : ∀ o ∈ s.oms, Near s.certs o.epoch
+  rt : ∀ ep, rtEpoch s.rt = some ep → Near s.certs ep
+
+theorem Near.mono {certs certs' : List CertRec} {ep : Nat} (h : Near certs ep) (hc : ∀ c ∈ certs, c ∈ certs') :
+    Near certs' ep := by
+  obtain ⟨c, hm, he⟩ := h
+  exact ⟨c, hc c hm, he⟩
+
+theorem updOm_epochs {e : Nat} {f : OM → OM} {oms : List OM} (hf : ∀ o, (f o).epoch = o.epoch) :
+    ∀ o ∈ updOm e f oms, ∃ o0 ∈ oms, o.epoch = o0.epoch := by
+  intro o ho
+  obtain ⟨o0, h0, h1⟩ := mem_updOm ho
+  rcases h1 with rfl | ⟨_, rfl⟩
+  · exact ⟨_, h0, rfl⟩
+  · exact ⟨o0, h0, hf o0⟩
+
+theorem markExpired_epochs (now e : Nat) (oms : List OM) :
+    ∀ o ∈ markExpired now e oms, ∃ o0 ∈ oms, o.epoch = o0.epoch :=
+  updOm_epochs (fun o => (markExpired_mono now o).2.1)
+
+theorem scan_epochs (E : Env) (tp : Tp) : ∀ (l : List Nat) (oms : List OM), ∀ o ∈ (scan E tp l oms).1,
+    (∃ o0 ∈ oms, o.epoch = o0.epoch) ∨ (∃ e ∈ l, o.epoch = E.entityEpoch e) := by
+  intro l
+  induction l with
+  | nil => intro oms o ho; exact Or.inl ⟨o, ho, rfl⟩
+  | cons a r ih =>
+    intro oms o ho
+    rw [scan_cons] at ho
+    split at ho
+    · rcases List.mem_append.mp ho with ho | ho
+      · exact Or.inl (markExpired_epochs _ _ _ o ho)
+      · simp only [List.mem_singleton] at ho; subst ho
+        exact Or.inr ⟨a, by simp, rfl⟩
+    · split at ho
+      · exact Or.inl (markExpired_epochs _ _ _ o ho)
+      · rcases ih _ o ho with ⟨o1, h1, h2⟩ | ⟨e, he, h2⟩
+        · obtain ⟨o0, h0, h3⟩ := markExpired_epochs _ _ _ o1 h1
+          exact Or.inl ⟨o0, h0, h2.trans h3⟩
+        · exact Or.inr ⟨e, List.mem_cons_of_mem _ he, h2⟩
+
+theorem idleStep_rt (s : St) (tp : Tp) (last : Option Nat) :
+    (idleStep s tp last).rt = s.rt ∨ (∃ w, (idleStep s tp last).rt = .blocked tp.epoch w) ∨
+    ((idleStep s tp last).rt = .ready tp.epoch ∧
+      ∃ latest, s.certs.getLast? = some latest ∧ ¬ absDiff tp.epoch latest.epoch > 1) := by
+  unfold idleStep
+  dsimp only
+  have hcerts : (epochInit s tp).certs = s.certs := rfl
+  cases (last.isNone || last.any (· < tp.epoch))
+  · simp only [Bool.false_and, Bool.false_eq_true, if_false]
+    split
+    · exact Or.inr (Or.inl ⟨_, rfl⟩)
+    · rename_i latest hl
+      split
+      · exact Or.inr (Or.inl ⟨_, rfl⟩)
+      · rename_i hgap
+        split
+        · exact Or.inr (Or.inl ⟨_, rfl⟩)
+        · split
+          · exact Or.inr (Or.inl ⟨_, rfl⟩)
+          · exact Or.inr (Or.inr ⟨rfl, latest, hl, hgap⟩)
+  · simp only [Bool.true_and, if_true]
+    split
+    · exact Or.inl rfl
+    · split
+      · exact Or.inr (Or.inl ⟨_, rfl⟩)
+      · rename_i latest hl
+        rw [hcerts] at hl
+        split
+        · exact Or.inr (Or.inl ⟨_, rfl⟩)
+        · rename_i hgap
+          split
+          · exact Or.inr (Or.inl ⟨_, rfl⟩)
+          · split
+            · exact Or.inr (Or.inl ⟨_, rfl⟩)
+            · exact Or.inr (Or.inr ⟨rfl, latest, hl, hgap⟩)
+
+theorem readyStepCut_rt (E : Env) (s : St) (tp : Tp) (p : CrashPoint) :
+    (readyStepCut E s tp p).rt = s.rt ∨ (readyStepCut E s tp p).rt = .ready tp.epoch ∨
+    ∃ e, (readyStepCut E s tp p).rt = .signing tp.epoch e := by
+  unfold readyStepCut
+  split
+  · rename_i oms' e heq
+    dsimp only
+    have hc := handOverGo_core e (({ s with oms := oms' } : St).buf.filter (·.disc = E.entityDisc e)).reverse { s with oms := oms' } []
+    have hN : (handOverNoRemoval E { s with oms := oms' } e).1.rt = s.rt := by
+      unfold handOverNoRemoval
+      split <;> (rename_i heq3; rw [heq3] at hc; exact hc.2.2.2.2)
+    have hH : (handOver E { s with oms := oms' } e).1.rt = s.rt := (handOver_core E { s with oms := oms' } e).2.2.2.2
+    split
+    · exact Or.inr (Or.inr ⟨e, rfl⟩)
+    · split
+      · exact Or.inl rfl
+      · split
+        · exact Or.inr (Or.inr ⟨e, rfl⟩)
+        · rename_i s2 heq2; rw [heq2] at hN; exact Or.inl hN
+      · split
+        · exact Or.inr (Or.inr ⟨e, rfl⟩)
+        · rename_i s2 heq2; rw [heq2] at hH; exact Or.inl hH
+  · exact Or.inr (Or.inl rfl)
+
+theorem crashTick_gap {E : Env} {s : St} (tp : Tp) (p : CrashPoint) (hi : SInv E s) (hw : Wf E s tp) (h : GapInv s) :
+    GapInv (crashTick E s tp p) := by
+  obtain ⟨hseen, hav⟩ := hw
+  unfold crashTick
+  split
+  · -- idle
+    rename_i last hrt
+    have hcerts := (idleStep_se s tp last).2
+    refine ⟨?_, ?_⟩
+    · rw [hcerts]
+      rcases idleStep_oms s tp last with h1 | h1 <;> rw [h1]
+      · exact h.oms
+      · intro o ho; exact h.oms o (List.mem_filter.mp ho).1
+    · intro ep hep
+      rw [hcerts]
+      rcases idleStep_rt s tp last with h1 | ⟨w, h1⟩ | ⟨h1, latest, hl, hgap⟩
+      · rw [h1, hrt] at hep; cases hep
+      · rw [h1] at hep; cases hep
+      · rw [h1] at hep
+        simp only [rtEpoch, Option.some.injEq] at hep
+        subst hep
+        have hm := getLast?_mem hl
+        have hle := hi.certLe latest hm
+        refine ⟨latest, hm, ?_⟩
+        unfold absDiff at hgap
+        split at hgap <;> omega
+  · -- blocked
+    split
+    · exact ⟨h.oms, fun ep hep => by cases hep⟩
+    · exact h
+  · -- ready
+    rename_i ep hrt
+    split
+    · exact ⟨h.oms, fun ep hep => by cases hep⟩
+    · rename_i hnlt
+      have hep : ep = tp.epoch := by
+        have := (hi.ready ep hrt).1
+        omega
+      have hnear : Near s.certs tp.epoch := by rw [← hep]; exact h.rt ep (by rw [hrt]; rfl)
+      have hcerts := (readyStepCut_se E s tp p).2
+      refine ⟨?_, ?_⟩
+      · rw [hcerts, readyStepCut_oms]
+        intro o ho
+        rcases scan_epochs E tp tp.avail s.oms o ho with ⟨o0, h0, h1⟩ | ⟨e, he, h1⟩
+        · rw [h1]; exact h.oms o0 h0
+        · rw [h1, hav e he]; exact hnear
+      · intro ep' hep'
+        rw [hcerts]
+        rcases readyStepCut_rt E s tp p with h1 | h1 | ⟨e, h1⟩
+        · rw [h1, hrt] at hep'
+          simp only [rtEpoch, Option.some.injEq] at hep'
+          rw [← hep', hep]; exact hnear
+        · rw [h1] at hep'
+          simp only [rtEpoch, Option.some.injEq] at hep'
+          rw [← hep']; exact hnear
+        · rw [h1] at hep'
+          simp only [rtEpoch, Option.some.injEq] at hep'
+          rw [← hep']; exact hnear
+  · -- signing
+    rename_i ep e hrt
+    have hnear : Near s.certs ep := h.rt ep (by rw [hrt]; rfl)
+    have homs : ∀ o ∈ markExpired tp.now e s.oms, Near s.certs o.epoch := by
+      intro o ho
+      obtain ⟨o0, h0, h1⟩ := markExpired_epochs _ _ _ o ho
+      rw [h1]; exact h.oms o0 h0
+    unfold signingStepCut
+    dsimp only
+    split
+    · exact ⟨homs, fun ep' hep' => by cases hep'⟩
+    · split
+      · refine ⟨homs, fun ep' hep' => ?_⟩
+        simp only [rtEpoch, Option.some.injEq] at hep'
+        rw [← hep']; exact hnear
+      · split
+        · rename_i c hc
+          have hsub : ∀ c' ∈ s.certs, c' ∈ s.certs ++ [c] := fun c' h' => List.mem_append_left _ h'
+          have homs2 : ∀ o ∈ updOm e (fun o => { o with certified := true }) (markExpired tp.now e s.oms),
+              Near (s.certs ++ [c]) o.epoch := by
+            intro o ho
+            obtain ⟨o1, h1, h2⟩ := updOm_epochs (f := fun o => { o with certified := true }) (fun _ => rfl) o ho
+            rw [h2]; exact (homs o1 h1).mono hsub
+          have hrt1 : ∀ ep', rtEpoch s.rt = some ep' → Near (s.certs ++ [c]) ep' := by
+            intro ep' hep'
+            rw [hrt] at hep'
+            simp only [rtEpoch, Option.some.injEq] at hep'
+            rw [← hep']; exact hnear.mono hsub
+          have hrt2 : ∀ ep', rtEpoch (readyOf s.rt) = some ep' → Near (s.certs ++ [c]) ep' := by
+            intro ep' hep'
+            rw [hrt] at hep'
+            simp only [readyOf, rtEpoch, Option.some.injEq] at hep'
+            rw [← hep']; exact hnear.mono hsub
+          unfold createCertificateCut
+          cases p <;> dsimp only
+          · exact ⟨homs, fun ep' hep' => by
+              have := h.rt ep' hep'; exact this⟩
+          · exact ⟨fun o ho => (homs o ho).mono hsub, hrt1⟩
+          · exact ⟨homs2, hrt1⟩
+          all_goals exact ⟨homs2, hrt2⟩
+        · exact ⟨homs, fun ep' hep' => h.rt ep' hep'⟩
+
+theorem step_gap {E : Env} {s : St} (ev : Event) (hi : SInv E s) (hw : EvWfC E s ev) (h : GapInv s) :
+    GapInv (step E s ev) := by
+  cases ev with
+  | tick tp =>
+    show GapInv { tick E s tp with seen := tp.epoch }
+    rw [tick_eq_crashTick]
+    exact ⟨(crashTick_gap tp _ hi hw h).oms, (crashTick_gap tp _ hi hw h).rt⟩
+  | crash tp p => exact ⟨(crashTick_gap tp p hi hw h).oms, (crashTick_gap tp p hi hw h).rt⟩
+  | signature e g =>
+    show GapInv (registerSig E s e g)
+    unfold registerSig
+    split
+    · exact ⟨h.oms, h.rt⟩
+    · exact ⟨h.oms, h.rt⟩
+    · exact h
+  | register k p =>
+    show GapInv (register s k p)
+    unfold register
+    split
+    · exact ⟨h.oms, h.rt⟩
+    · exact h
+  | expire e =>
+    refine ⟨?_, h.rt⟩
+    intro o ho
+    obtain ⟨o0, h0, h1⟩ := updOm_epochs (f := fun o => { o with expiresAt := some 0 }) (fun _ => rfl) o ho
+    rw [h1]; exact h.oms o0 h0
+  | restart => exact ⟨h.oms, fun ep hep => by cases hep⟩
+
+theorem run_gap (E : Env) : ∀ (evs : List Event) (s : St), SInv E s → GapInv s → RunWfC E s evs →
+    GapInv (evs.foldl (step E) s) := by
+  intro evs
+  induction evs with
+  | nil => intro s _ h _; exact h
+  | cons ev r ih => intro s hi h hw; exact ih _ (step_sinv ev hi hw.1) (step_gap ev hi hw.1 h) hw.2
+
+theorem gap_init (n g : Nat) : GapInv (init n g) :=
+  ⟨fun o ho => by simp [init] at ho, fun ep hep => by simp [init, rtEpoch] at hep⟩
+
+/-- **the hypotheses of `C14_gap_blocks` are met by no reachable state of the model**: along every run (cut ticks
+included) every open message has a stored certificate of its epoch or of the one before -/
+theorem gap_hypothesis_unreachable (E : Env) (n g : Nat) (evs : List Event) (hw : RunWfC E (init n g) evs) (e : Nat) (o : OM)
+    (ho : findOm e (evs.foldl (step E) (init n g)).oms = some o) :
+    ¬ ∀ c ∈ (evs.foldl (step E) (init n g)).certs, c.epoch ≠ o.epoch ∧ c.epoch + 1 ≠ o.epoch := by
+  intro hgap
+  obtain ⟨c, hc, hce⟩ := (run_gap E evs (init n g) (sinv_init E n g) (gap_init n g) hw).oms o (findOm_some ho).1
+  obtain ⟨h1, h2⟩ := hgap c hc
+  rcases hce with h | h
+  · exact h1 h
+  · exact h2 h
 
 /-! ### `C14_gap_blocks_idle` (hypotheses: a latest certificate, `absDiff tp.epoch latest.epoch > 1`) -/
 
